@@ -28,6 +28,8 @@ type HarnessSpec struct {
 	MaxSteps int
 	AllowPanic bool
 	AlwaysFeas bool
+	Race       bool   // native replay / validation runs under the Go race detector
+	Structural string // non-empty: a structural obligation (structural.go), not a harness
 	NoNative   bool // harness cannot run natively (engine-only scheduling features)
 	MonoTime   bool // model Time arithmetic on monotonic readings as int64 arithmetic
 	Bounds   string // human description of the bounds
